@@ -97,6 +97,7 @@ class SolverWrapper:
     optimization_sense = "minimize"
     infeasible_status = "kInfeasible"
     use_also_custom_timeout = False
+    _highs_scheduler_threads = None  # number of threads the global HiGHS scheduler was last initialized with
 
     # We try to map gurobi status codes to HiGHS status codes when there is a clear correspondence
     gurobi_status_to_highs = {
@@ -133,7 +134,8 @@ class SolverWrapper:
         if self.external_solver == "highs":
             self.solver = HighsCustom()
             self.solver.setOptionValue("solver", "choose")
-            self.solver.setOptionValue("threads", kwargs.get("threads", SolverWrapper.threads))
+            self._highs_threads = kwargs.get("threads", SolverWrapper.threads)
+            self.solver.setOptionValue("threads", self._highs_threads)
             self.solver.setOptionValue("time_limit", kwargs.get("time_limit", SolverWrapper.time_limit))
             self.solver.setOptionValue("presolve", kwargs.get("presolve", SolverWrapper.presolve))
             self.solver.setOptionValue("log_to_console", kwargs.get("log_to_console", SolverWrapper.log_to_console))
@@ -517,6 +519,14 @@ class SolverWrapper:
         # Otherwise, we call the function with a timeout
         # Apply any queued bound updates right before solving
         self._apply_pending_bound_updates()
+
+        if self.external_solver == "highs":
+            # HiGHS has a single global task scheduler per process, initialized with the number of threads of the
+            # first solve. A later solve asking for a different number of threads fails to run (model status
+            # kNotset) unless the scheduler is reset first.
+            if SolverWrapper._highs_scheduler_threads not in (None, self._highs_threads) and hasattr(highspy.Highs, "resetGlobalScheduler"):
+                highspy.Highs.resetGlobalScheduler(True)
+            SolverWrapper._highs_scheduler_threads = self._highs_threads
 
         if self.time_limit == float('inf') or (not self.use_also_custom_timeout):
             self.solver.optimize()
